@@ -128,6 +128,20 @@ def run(ctx):
     for L in LENS:
         for ph in pyref.extreme_phrases(rng, wl, L):
             cases.append((ph, "extreme-text-length/%d" % L, "must", True))
+    # near misses: a VALID phrase in which one word is replaced by something a lenient matcher might still take for it
+    # (suffix, NUL padding, prefix-of-a-word, case change, trailing punctuation): must be refused, the checksum would fit
+    for k, n in LENS.items():
+        for _ in range(4 if not thorough else 30):
+            ws = phrase_words(rbytes(rng, n))
+            for pos in rng.sample(range(k), 3):
+                w = ws[pos]
+                for v in (w + "x", w + "ly", w + "\x00", w + "\x00" * (8 - len(w)) if len(w) < 8 else w + "\x00", w + "é", w[:-1], w[:4], w.upper(), w.capitalize(),
+                          w + ".", w + w, "x" + w, w[:-1] + chr(ord(w[-1]) ^ 1)):
+                    if v in widx or not v or any(c.isspace() for c in v):
+                        continue
+                    t = list(ws)
+                    t[pos] = v
+                    cases.append((" ".join(t), "near-miss-word/len%d" % len(w), "must", rng.random() < 0.2))
     cases.append(("", "empty", "must", True))
     cases.append(("   \n\t ", "empty", "must", True))
     cases.append((" ".join(base) + "​", "zero-width-space-is-not-white-space", "must", True))
